@@ -485,6 +485,7 @@ def _pools(cls):
                  Discard(qubit @ bit), MixedState(), MixedState(bit),
                  MixedState(bit @ qubit), G.SWAP, Swap(bit, qubit),
                  Swap(qubit, bit), G.scalar(0.5), G.scalar(0.5, is_mixed=True),
+                 G.scalar(0.5j, is_mixed=True), G.scalar(1 + 2j),
                  G.Controlled(G.Rz(0.1)), G.CRz(0.3), G.sqrt(2)]
         extra = [C.Circuit.cups(bit, bit), C.Circuit.cups(qubit, qubit),
                  C.Circuit.caps(bit @ qubit, qubit @ bit),
